@@ -1,7 +1,8 @@
 (** Properties of the signature opcodes proved about model/CheckSig.v (C06), part 3:
     - the digest is the specification's digest (spec/DigestSpec.v) of the script code;
-    - the script code: the opcodes after the last executed separator; legacy: minus separators and minus
-      smallest-form pushes containing the signature; FORKID flag + bit: untouched; which opcodes move the start;
+    - the script code: the opcodes after the last executed separator, minus the opcodes that ARE the push of
+      a signature not hashed with the FORKID digest (exact, FindAndDelete), and for the original digest minus
+      the separators; FORKID flag + bit: untouched; which opcodes move the start;
     - OP_CHECKMULTISIG consumes exactly n + m + 3 items; the run on a well-shaped stack;
     - the flag table: which defects of a (signature, key) pair are hard failures under which flags. *)
 From Coq Require Import List NArith ZArith Lia Bool ZifyN ZifyNat ZifyBool.
@@ -62,23 +63,242 @@ Qed.
 
 (** ** the script code *)
 Definition is_sep (p : pop) : bool := (p_val p =? OP_CODESEPARATOR)%N.
-(** removed in legacy mode: separators, and smallest-form pushes whose data contains the signature *)
-Definition carries (sig : bytes) (p : pop) : bool := canonical_push p && bytes_contains (p_data p) sig.
-Definition kept (sig : bytes) (p : pop) : bool := negb (is_sep p) && negb (carries sig p).
+(** the opcode is the push of the signature: its serialisation is, byte for byte, what a script
+    serialises the signature with (FindAndDelete's pattern [CScript() << vchSig]) *)
+Definition is_sig_push (sig : bytes) (p : pop) : bool :=
+  match push_prefix sig with Some pre => is_push_of (pre ++ sig) p | None => false end.
+(** kept in the script code of an original-digest OP_CHECKSIG: neither a separator nor the push of the signature *)
+Definition kept (sig : bytes) (p : pop) : bool := negb (is_sep p) && negb (is_sig_push sig p).
 
 Lemma filter_filter {A} (f g : A -> bool) l : filter g (filter f l) = filter (fun x => f x && g x) l.
 Proof. induction l as [|x l IH]; cbn; [reflexivity|]. destruct (f x); cbn; [destruct (g x)|]; rewrite IH; reflexivity. Qed.
 
-Lemma strip_sig_spec ops sig : strip_sig ops sig = filter (kept sig) ops.
+Lemma filter_true {A} (l : list A) : filter (fun _ => true) l = l.
+Proof. induction l; cbn; [reflexivity|f_equal; assumption]. Qed.
+
+Lemma remove_by_data_spec ops sig : remove_by_data ops sig = filter (fun p => negb (is_sig_push sig p)) ops.
 Proof.
-  unfold strip_sig, remove_opcode, remove_by_data. rewrite filter_filter. apply filter_ext.
-  intros p. unfold kept, carries, is_sep. rewrite negb_andb. apply andb_comm.
+  unfold remove_by_data, is_sig_push. destruct (push_prefix sig); [reflexivity|]. symmetry. apply filter_true.
 Qed.
 
-Lemma carries_spec sig p : carries sig p = true <-> canonical_push p = true /\ exists a b, p_data p = a ++ sig ++ b.
-Proof. unfold carries. rewrite andb_true_iff, bytes_contains_spec. tauto. Qed.
+Lemma strip_sig_spec ops sig : strip_sig ops sig = filter (kept sig) ops.
+Proof.
+  unfold strip_sig, remove_opcode. rewrite remove_by_data_spec, filter_filter. apply filter_ext.
+  intros p. unfold kept, is_sep. apply andb_comm.
+Qed.
 
-(** OP_CHECKSIG: untouched under (FORKID flag and FORKID bit), otherwise stripped of that signature *)
+(** removal is exact: an opcode is removed exactly when its serialisation (pop.bytes) is the push of the
+    signature *)
+Theorem is_sig_push_spec sig p :
+  is_sig_push sig p = true <-> exists pre, push_prefix sig = Some pre /\ pop_bytes p = Some (pre ++ sig).
+Proof.
+  unfold is_sig_push, is_push_of. destruct (push_prefix sig) as [pre|].
+  - destruct (pop_bytes p) as [b|].
+    + rewrite bytes_eqb_eq. split; [intros ->; eauto|intros (pre' & [= <-] & [= ->]); reflexivity].
+    + split; [discriminate|intros (pre' & _ & H); discriminate].
+  - split; [discriminate|intros (pre' & H & _); discriminate].
+Qed.
+
+(** the push a script serialises [sig] with: one length byte below 76 bytes (the single byte 00 = OP_0
+    for the empty signature), OP_PUSHDATA1/2/4 with a 1/2/4-byte little-endian length above *)
+Theorem push_prefix_spec sig :
+  let l := N.of_nat (length sig) in
+  push_prefix sig =
+    if (l <? 76)%N then Some [n2b l]
+    else if (l <? 256)%N then Some [x4c; n2b l]
+    else if (l <? 65536)%N then Some (x4d :: le_enc 2 l)
+    else if (l <? 4294967296)%N then Some (x4e :: le_enc 4 l)
+    else None.
+Proof.
+  cbv zeta. unfold push_prefix.
+  change (n2b OP_PUSHDATA1) with x4c. change (n2b OP_PUSHDATA2) with x4d. change (n2b OP_PUSHDATA4) with x4e.
+  destruct (N.leb_spec (N.of_nat (length sig)) 75); destruct (N.ltb_spec (N.of_nat (length sig)) 76); try lia; [reflexivity|].
+  destruct (N.leb_spec (N.of_nat (length sig)) 255); destruct (N.ltb_spec (N.of_nat (length sig)) 256); try lia; [reflexivity|].
+  destruct (N.leb_spec (N.of_nat (length sig)) 65535); destruct (N.ltb_spec (N.of_nat (length sig)) 65536); try lia; [reflexivity|].
+  destruct (N.leb_spec (N.of_nat (length sig)) 4294967295); destruct (N.ltb_spec (N.of_nat (length sig)) 4294967296); try lia; reflexivity.
+Qed.
+
+(** serialisations of a single byte: only opcodes without data *)
+Lemma pop_bytes_single p v : pop_bytes p = Some [v] -> v = n2b (p_val p) /\ p_data p = [] /\ p_len p = 1%Z.
+Proof.
+  unfold pop_bytes. destruct (Z.eqb_spec (p_len p) 1) as [E|E].
+  - destruct (p_data p); [|discriminate]. intros [= <-]. auto.
+  - destruct (Z.eqb_spec (p_len p) (-1)); [|destruct (Z.eqb_spec (p_len p) (-2)); [|destruct (Z.eqb_spec (p_len p) (-4))]].
+    all: cbv beta iota zeta.
+    all: match goal with |- (if ?b then _ else _) = _ -> _ => destruct b eqn:Eb; [|discriminate] end.
+    all: intros H; injection H as Hv Hrest.
+    1-3: discriminate Hrest.
+    apply Z.eqb_eq in Eb. destruct (p_data p); [|discriminate].
+    unfold lenZ in Eb. cbn in Eb. lia.
+Qed.
+
+(** an empty signature removes OP_0 opcodes only: the one-byte serialisation 00 *)
+Theorem empty_sig_removes_op0_only p :
+  is_sig_push [] p = true <-> pop_bytes p = Some [x00].
+Proof.
+  rewrite is_sig_push_spec. cbn. split.
+  - intros (pre & [= <-] & H). exact H.
+  - intros H. exists [x00]. auto.
+Qed.
+
+Corollary empty_sig_removed_opcode p : is_sig_push [] p = true -> n2b (p_val p) = x00 /\ p_data p = [].
+Proof.
+  intros H. apply empty_sig_removes_op0_only in H. apply pop_bytes_single in H. destruct H as (H1 & H2 & _). auto.
+Qed.
+
+(** an opcode that serialises to one byte other than 00 (OP_1NEGATE, OP_1 .. OP_16, every non-push
+    opcode) is never removed, whatever the signature *)
+Theorem single_byte_opcode_kept sig p v : pop_bytes p = Some [v] -> v <> x00 -> is_sig_push sig p = false.
+Proof.
+  intros Hp Hv. destruct (is_sig_push sig p) eqn:E; [|reflexivity]. exfalso.
+  apply is_sig_push_spec in E. destruct E as (pre & Hpre & Hb). rewrite Hp in Hb. injection Hb as Hb.
+  pose proof (push_prefix_spec sig) as Hs. cbv zeta in Hs. rewrite Hpre in Hs.
+  destruct sig as [|s0 sig].
+  - cbn in Hs. injection Hs as ->. cbn in Hb. injection Hb as ->. apply Hv. reflexivity.
+  - assert (Hl : (length pre >= 1)%nat).
+    { repeat match type of Hs with Some _ = (if ?b then _ else _) => destruct b end; try discriminate;
+        injection Hs as ->; cbn [length]; lia. }
+    apply (f_equal (@length byte)) in Hb. rewrite app_length in Hb. cbn [length] in Hb. lia.
+Qed.
+
+(** a push instruction of the opcode table (the parser's [op_length]) is removed only if it pushes
+    exactly the signature with the smallest instruction: a push that merely CONTAINS the signature, or
+    that pushes it with a longer instruction, stays *)
+Definition push_opcode (n : nat) : N :=
+  let l := N.of_nat n in
+  if (l <? 76)%N then l else if (l <? 256)%N then OP_PUSHDATA1 else if (l <? 65536)%N then OP_PUSHDATA2 else OP_PUSHDATA4.
+
+Lemma n2b_inj_small a b : (a < 256)%N -> (b < 256)%N -> n2b a = n2b b -> a = b.
+Proof. intros Ha Hb H. apply (f_equal b2n) in H. rewrite !b2n_n2b_small in H by assumption. exact H. Qed.
+
+Lemma n2b_eq_byte a x : (a < 256)%N -> n2b a = x -> a = b2n x.
+Proof. intros Ha <-. symmetry. apply b2n_n2b_small. exact Ha. Qed.
+
+Lemma app_inv_len {A} (a b c d : list A) : length a = length c -> a ++ b = c ++ d -> a = c /\ b = d.
+Proof.
+  revert c. induction a as [|x a IH]; intros [|y c] Hl H; cbn in *; try discriminate; [auto|].
+  injection H as -> H. destruct (IH c ltac:(lia) H) as [-> ->]. auto.
+Qed.
+
+(** ParsedOpcode.bytes for the four kinds of opcodes of the table *)
+Lemma pop_bytes_nodata p : p_len p = 1%Z ->
+  pop_bytes p = match p_data p with [] => Some [n2b (p_val p)] | _ => None end.
+Proof. intros H. unfold pop_bytes. rewrite H. reflexivity. Qed.
+
+Lemma pop_bytes_direct p : p_len p <> 1%Z -> (0 < p_len p)%Z ->
+  pop_bytes p = if (lenZ (n2b (p_val p) :: p_data p) =? p_len p)%Z then Some (n2b (p_val p) :: p_data p) else None.
+Proof.
+  intros H1 H2. unfold pop_bytes.
+  replace (p_len p =? 1)%Z with false by lia. replace (p_len p =? -1)%Z with false by lia.
+  replace (p_len p =? -2)%Z with false by lia. replace (p_len p =? -4)%Z with false by lia. reflexivity.
+Qed.
+
+Lemma pop_bytes_pushdata p k : (k = 1 \/ k = 2 \/ k = 4)%nat -> p_len p = (- Z.of_nat k)%Z ->
+  pop_bytes p =
+  let h := le_enc k (N.of_nat (length (p_data p))) in
+  if (lenZ (n2b (p_val p) :: h ++ p_data p) =? Z.of_N (le_dec h) + (Z.of_nat k + 1))%Z
+  then Some (n2b (p_val p) :: h ++ p_data p) else None.
+Proof.
+  intros Hk H. unfold pop_bytes. rewrite H. destruct Hk as [-> | [-> | ->]]; reflexivity.
+Qed.
+
+Theorem removed_push_is_exact sig p :
+  p_len p = op_length (p_val p) -> (p_val p < 256)%N ->
+  is_sig_push sig p = true -> p_data p = sig /\ p_val p = push_opcode (length sig).
+Proof.
+  intros Hlen Hv H. apply is_sig_push_spec in H. destruct H as (pre & Hpre & Hb).
+  pose proof (push_prefix_spec sig) as Hs. cbv zeta in Hs. rewrite Hpre in Hs. clear Hpre.
+  unfold push_opcode. set (l := N.of_nat (length sig)) in *.
+  unfold op_length in Hlen.
+  (* the first byte of the push decides the range of the signature's length *)
+  assert (Hfirst : forall v rest, Some (v :: rest) = Some (pre ++ sig) ->
+            ((l <? 76)%N = true /\ v = n2b l /\ rest = sig) \/
+            ((l <? 76)%N = false /\ (l <? 256)%N = true /\ v = x4c /\ rest = n2b l :: sig) \/
+            ((l <? 76)%N = false /\ (l <? 256)%N = false /\ (l <? 65536)%N = true /\ v = x4d /\ rest = le_enc 2 l ++ sig) \/
+            ((l <? 76)%N = false /\ (l <? 256)%N = false /\ (l <? 65536)%N = false /\ v = x4e /\ rest = le_enc 4 l ++ sig)).
+  { intros v rest Hvr. injection Hvr as Hvr.
+    destruct (l <? 76)%N; [injection Hs as ->; cbn [app] in Hvr; injection Hvr as Hq1 Hq2; subst v rest; left; auto|].
+    destruct (l <? 256)%N; [injection Hs as ->; cbn [app] in Hvr; injection Hvr as Hq1 Hq2; subst v rest; right; left; auto|].
+    destruct (l <? 65536)%N; [injection Hs as ->; cbn [app] in Hvr; injection Hvr as Hq1 Hq2; subst v rest; right; right; left; repeat split; reflexivity|].
+    destruct (l <? 4294967296)%N; [|discriminate].
+    injection Hs as ->; cbn [app] in Hvr; injection Hvr as Hq1 Hq2; subst v rest; right; right; right; repeat split; reflexivity. }
+  destruct ((1 <=? p_val p)%N && (p_val p <=? 75)%N) eqn:Edirect.
+  - (* OP_DATA_1 .. OP_DATA_75 *)
+    apply andb_true_iff in Edirect. destruct Edirect as [E1 E2]. apply N.leb_le in E1, E2.
+    rewrite pop_bytes_direct in Hb by lia.
+    destruct (lenZ _ =? _)%Z; [|discriminate].
+    destruct (Hfirst _ _ Hb) as [(L1 & Hn & Hd)|[(L1 & L2 & Hn & Hd)|[(L1 & L2 & L3 & Hn & Hd)|(L1 & L2 & L3 & Hn & Hd)]]].
+    + rewrite L1. apply N.ltb_lt in L1. apply n2b_inj_small in Hn; [|lia|lia]. auto.
+    + exfalso. apply n2b_eq_byte in Hn; [|lia]. cbv [b2n Byte.to_N] in Hn. lia.
+    + exfalso. apply n2b_eq_byte in Hn; [|lia]. cbv [b2n Byte.to_N] in Hn. lia.
+    + exfalso. apply n2b_eq_byte in Hn; [|lia]. cbv [b2n Byte.to_N] in Hn. lia.
+  - destruct (p_val p =? 76)%N eqn:E76; [|destruct (p_val p =? 77)%N eqn:E77; [|destruct (p_val p =? 78)%N eqn:E78]].
+    + (* OP_PUSHDATA1 *)
+      apply N.eqb_eq in E76. rewrite (pop_bytes_pushdata p 1) in Hb by (auto; lia). cbv zeta in Hb.
+      destruct (lenZ _ =? _)%Z; [|discriminate]. rewrite E76 in Hb. change (n2b 76) with x4c in Hb.
+      destruct (Hfirst _ _ Hb) as [(L1 & Hn & Hd)|[(L1 & L2 & Hn & Hd)|[(L1 & L2 & L3 & Hn & Hd)|(L1 & L2 & L3 & Hn & Hd)]]].
+      * exfalso. apply N.ltb_lt in L1. symmetry in Hn. apply n2b_eq_byte in Hn; [|lia]. cbv [b2n Byte.to_N] in Hn. lia.
+      * rewrite L1, L2. cbn [le_enc app] in Hd. injection Hd as _ Hd. split; [exact Hd|exact E76].
+      * discriminate.
+      * discriminate.
+    + (* OP_PUSHDATA2 *)
+      apply N.eqb_eq in E77. rewrite (pop_bytes_pushdata p 2) in Hb by (auto; lia). cbv zeta in Hb.
+      destruct (lenZ _ =? _)%Z; [|discriminate]. rewrite E77 in Hb. change (n2b 77) with x4d in Hb.
+      destruct (Hfirst _ _ Hb) as [(L1 & Hn & Hd)|[(L1 & L2 & Hn & Hd)|[(L1 & L2 & L3 & Hn & Hd)|(L1 & L2 & L3 & Hn & Hd)]]].
+      * exfalso. apply N.ltb_lt in L1. symmetry in Hn. apply n2b_eq_byte in Hn; [|lia]. cbv [b2n Byte.to_N] in Hn. lia.
+      * discriminate.
+      * rewrite L1, L2, L3. apply app_inv_len in Hd; [|rewrite !le_enc_length; reflexivity]. destruct Hd as [_ Hd].
+        split; [exact Hd|exact E77].
+      * discriminate.
+    + (* OP_PUSHDATA4 *)
+      apply N.eqb_eq in E78. rewrite (pop_bytes_pushdata p 4) in Hb by (auto; lia). cbv zeta in Hb.
+      destruct (lenZ _ =? _)%Z; [|discriminate]. rewrite E78 in Hb. change (n2b 78) with x4e in Hb.
+      destruct (Hfirst _ _ Hb) as [(L1 & Hn & Hd)|[(L1 & L2 & Hn & Hd)|[(L1 & L2 & L3 & Hn & Hd)|(L1 & L2 & L3 & Hn & Hd)]]].
+      * exfalso. apply N.ltb_lt in L1. symmetry in Hn. apply n2b_eq_byte in Hn; [|lia]. cbv [b2n Byte.to_N] in Hn. lia.
+      * discriminate.
+      * discriminate.
+      * rewrite L1, L2, L3. apply app_inv_len in Hd; [|rewrite !le_enc_length; reflexivity]. destruct Hd as [_ Hd].
+        split; [exact Hd|exact E78].
+    + (* an opcode without data: only OP_0 can be the push of a signature, the empty one *)
+      rewrite pop_bytes_nodata in Hb by exact Hlen. destruct (p_data p) eqn:Ed; [|discriminate].
+      destruct (Hfirst _ _ Hb) as [(L1 & Hn & Hd)|[(L1 & L2 & Hn & Hd)|[(L1 & L2 & L3 & Hn & Hd)|(L1 & L2 & L3 & Hn & Hd)]]];
+        try discriminate.
+      rewrite L1. apply N.ltb_lt in L1. apply n2b_inj_small in Hn; [|lia|lia]. auto.
+Qed.
+
+(** conversely the smallest push of the signature is removed *)
+Theorem exact_push_is_removed sig p :
+  p_len p = op_length (p_val p) -> p_data p = sig -> p_val p = push_opcode (length sig) ->
+  (N.of_nat (length sig) < 4294967296)%N -> is_sig_push sig p = true.
+Proof.
+  intros Hlen Hd Hv Hl. apply is_sig_push_spec.
+  pose proof (push_prefix_spec sig) as Hs. cbv zeta in Hs. rewrite Hs. clear Hs.
+  unfold push_opcode in Hv. set (l := N.of_nat (length sig)) in *.
+  assert (Hfin : forall k v, (k = 1 \/ k = 2 \/ k = 4)%nat -> p_val p = v -> p_len p = (- Z.of_nat k)%Z -> (l < 256 ^ N.of_nat k)%N ->
+            pop_bytes p = Some ((n2b v :: le_enc k l) ++ sig)).
+  { intros k v Hk Hpv Hpl Hlt. rewrite (pop_bytes_pushdata p k Hk Hpl). cbv zeta. rewrite Hd, Hpv. fold l.
+    rewrite le_dec_enc by exact Hlt. unfold lenZ. cbn [length]. rewrite app_length, le_enc_length.
+    match goal with |- (if ?b then _ else _) = _ => replace b with true by lia end. reflexivity. }
+  destruct (l <? 76)%N eqn:L1.
+  - apply N.ltb_lt in L1. eexists. split; [reflexivity|].
+    destruct (N.eq_dec l 0) as [E0|E0].
+    + assert (Hs0 : sig = []) by (destruct sig; [reflexivity|cbn in l; lia]).
+      rewrite pop_bytes_nodata by (rewrite Hlen, Hv, E0; reflexivity). rewrite Hd, Hv, E0, Hs0. reflexivity.
+    + assert (Hpl : p_len p = (Z.of_N l + 1)%Z).
+      { rewrite Hlen, Hv. unfold op_length. replace ((1 <=? l)%N && (l <=? 75)%N) with true by lia. reflexivity. }
+      rewrite pop_bytes_direct by lia. rewrite Hd, Hpl, Hv. unfold lenZ. cbn [length].
+      replace (Z.of_nat (S (length sig)) =? Z.of_N l + 1)%Z with true by lia. reflexivity.
+  - apply N.ltb_ge in L1. destruct (l <? 256)%N eqn:L2.
+    + apply N.ltb_lt in L2. eexists. split; [reflexivity|].
+      apply (Hfin 1%nat 76%N); [auto|exact Hv|rewrite Hlen, Hv; reflexivity|cbn; lia].
+    + apply N.ltb_ge in L2. destruct (l <? 65536)%N eqn:L3.
+      * apply N.ltb_lt in L3. eexists. split; [reflexivity|].
+        apply (Hfin 2%nat 77%N); [auto|exact Hv|rewrite Hlen, Hv; reflexivity|cbn; lia].
+      * apply N.ltb_ge in L3. replace (l <? 4294967296)%N with true by lia. eexists. split; [reflexivity|].
+        apply (Hfin 4%nat 78%N); [auto|exact Hv|rewrite Hlen, Hv; reflexivity|cbn; lia].
+Qed.
+
+(** OP_CHECKSIG: untouched under (FORKID flag and FORKID bit), otherwise minus that signature's push and the separators *)
 Theorem checksig_code_spec c s full shf :
   checksig_code_ops c s full shf =
   if has_flag c F_FORKID && flag_has shf sh_forkid then skipn (last_sep s) (cur s)
@@ -88,8 +308,9 @@ Proof.
   destruct (has_flag c F_FORKID); destruct (flag_has shf sh_forkid); reflexivity.
 Qed.
 
-(** OP_CHECKMULTISIG: the signatures that are not (FORKID flag and FORKID bit) are stripped one after
-    the other; if there is none the code is untouched *)
+(** OP_CHECKMULTISIG: the pushes of the signatures that are not (FORKID flag and FORKID bit) -- an empty
+    signature is one of them: it removes OP_0 opcodes -- are removed one after the other; separators are
+    not touched here *)
 Definition strips (c : ctx) (raw : bytes) : bool :=
   match split_last raw with
   | Some (_, hb) => negb (has_flag c F_FORKID && flag_has (b2n hb) sh_forkid)
@@ -97,23 +318,33 @@ Definition strips (c : ctx) (raw : bytes) : bool :=
   end.
 
 Lemma multisig_strip_one_spec c ops raw :
-  multisig_strip_one c ops raw = if strips c raw then filter (kept raw) ops else ops.
+  multisig_strip_one c ops raw = if strips c raw then filter (fun p => negb (is_sig_push raw p)) ops else ops.
 Proof.
-  unfold multisig_strip_one, strips. rewrite strip_sig_spec.
+  unfold multisig_strip_one, strips. rewrite remove_by_data_spec.
   destruct (split_last raw) as [[sg hb]|]; [|reflexivity].
   destruct (has_flag c F_FORKID && flag_has (b2n hb) sh_forkid); reflexivity.
 Qed.
 
 Theorem multisig_code_spec c s sigs :
   multisig_code_ops c s sigs =
-  filter (fun p => forallb (fun raw => negb (strips c raw) || kept raw p) sigs) (skipn (last_sep s) (cur s)).
+  filter (fun p => forallb (fun raw => negb (strips c raw) || negb (is_sig_push raw p)) sigs) (skipn (last_sep s) (cur s)).
 Proof.
   unfold multisig_code_ops, sub_script. generalize (skipn (last_sep s) (cur s)) as ops.
   induction sigs as [|raw sigs IH]; intros ops; cbn [fold_left forallb].
-  - symmetry. induction ops; cbn; [reflexivity|]. f_equal. assumption.
+  - symmetry. apply filter_true.
   - rewrite IH, multisig_strip_one_spec. destruct (strips c raw); cbn [negb orb].
     + rewrite filter_filter. apply filter_ext. intros p. reflexivity.
     + reflexivity.
+Qed.
+
+(** the script code hashed for ONE signature of the multisig: the separators go only for a signature
+    that is hashed with the original digest; a FORKID signature sees them, whatever the others are *)
+Theorem sig_code_spec c script shf :
+  sig_code_ops c script shf =
+  if has_flag c F_FORKID && flag_has shf sh_forkid then script else filter (fun p => negb (is_sep p)) script.
+Proof.
+  unfold sig_code_ops, remove_opcode, is_sep.
+  destruct (has_flag c F_FORKID); destruct (flag_has shf sh_forkid); reflexivity.
 Qed.
 
 (** Unparse: the concatenation of the opcodes' serialisations *)
@@ -132,8 +363,8 @@ Theorem multisig_pops orc t i c s idx vf s' :
   checkmultisig_run orc t i c s idx vf = Some (OOk s') ->
   exists nk pks ns sigs dummy rest b,
     ds s = nk :: pks ++ ns :: sigs ++ dummy :: rest /\
-    option_map to_int32 (pop_num c nk) = Some (Z.of_nat (length pks)) /\
-    option_map to_int32 (pop_num c ns) = Some (Z.of_nat (length sigs)) /\
+    option_map to_int32 (pop_count c nk) = Some (Z.of_nat (length pks)) /\
+    option_map to_int32 (pop_count c ns) = Some (Z.of_nat (length sigs)) /\
     (length sigs <= length pks)%nat /\
     ds s' = (if vf then rest else from_bool b :: rest) /\ (vf = true -> b = true) /\
     nops s' = (nops s + Z.of_nat (length pks))%Z /\
@@ -141,13 +372,13 @@ Theorem multisig_pops orc t i c s idx vf s' :
 Proof.
   unfold checkmultisig_run.
   destruct (ds s) as [|nk d1] eqn:Eds; [discriminate|].
-  destruct (pop_num c nk) as [nkz|] eqn:Enk; [|discriminate]. cbv zeta.
+  destruct (pop_count c nk) as [nkz|] eqn:Enk; [|discriminate]. cbv zeta.
   destruct (Z.ltb_spec (to_int32 nkz) 0) as [|Hnk]; [discriminate|].
   destruct (max_pubkeys c <? to_int32 nkz)%Z; [discriminate|].
   destruct (max_ops c <? nops s + to_int32 nkz)%Z; [discriminate|].
   destruct (pop_n (to_int32 nkz) d1) as [[pks d2]|] eqn:Ep; [|discriminate].
   destruct d2 as [|ns d3]; [discriminate|].
-  destruct (pop_num c ns) as [nsz|] eqn:Ens; [|discriminate].
+  destruct (pop_count c ns) as [nsz|] eqn:Ens; [|discriminate].
   destruct (Z.ltb_spec (to_int32 nsz) 0) as [|Hns]; [discriminate|].
   destruct (Z.ltb_spec (to_int32 nkz) (to_int32 nsz)) as [|Hle]; [discriminate|].
   destruct (pop_n (to_int32 nsz) d3) as [[sigs d4]|] eqn:Es; [|discriminate].
@@ -182,8 +413,8 @@ Qed.
 (** the run on a stack of the right shape *)
 Theorem multisig_eval orc t i c s idx vf nk pks ns sigs dummy rest a b :
   ds s = nk :: pks ++ ns :: sigs ++ dummy :: rest ->
-  pop_num c nk = Some a -> to_int32 a = Z.of_nat (length pks) ->
-  pop_num c ns = Some b -> to_int32 b = Z.of_nat (length sigs) ->
+  pop_count c nk = Some a -> to_int32 a = Z.of_nat (length pks) ->
+  pop_count c ns = Some b -> to_int32 b = Z.of_nat (length sigs) ->
   (length sigs <= length pks)%nat -> (Z.of_nat (length pks) <= max_pubkeys c)%Z ->
   (nops s + Z.of_nat (length pks) <= max_ops c)%Z ->
   checkmultisig_run orc t i c s idx vf =
@@ -235,7 +466,7 @@ Proof.
   cbv zeta.
   assert (Hwp : forall p',
     (if negb (orc_parse_pub orc pk) then ms_struct orc t i c script krest p' (raw :: srest)
-     else match unparse script with
+     else match unparse (sig_code_ops c script (b2n hb)) with
           | Some up =>
               match sighash_for t i up (b2n hb) with
               | SOk h =>
@@ -253,7 +484,7 @@ Proof.
                          (check_hash_type c (b2n hb0) = false \/ check_sig_enc c sg0 = EncErr)) \/
      (exists pk0, In pk0 (pk :: krest) /\ check_pubkey_enc c pk0 = false)).
   { intros p'. destruct (negb (orc_parse_pub orc pk)); [apply Hk; exact I1|].
-    destruct (unparse script); [|discriminate].
+    destruct (unparse (sig_code_ops c script (b2n hb))); [|discriminate].
     destruct (sighash_for t i l (b2n hb)); try discriminate.
     destruct (orc_verify orc pk b sg (uses_der_parser c)) as [[|]|]; [apply Hk; exact I2|apply Hk; exact I1|discriminate]. }
   assert (Hpkerr : LErr = LErr ->
@@ -313,7 +544,7 @@ Inductive defect :=
 | ForkIdBit                (* hash type has bit 0x40 *)
 | NoForkIdBit              (* hash type lacks bit 0x40 *)
 | NotStrictDER             (* the bytes before the hash type are not BIP66 strict DER *)
-| HighS                    (* strict DER but S above half the group order *)
+| HighS                    (* strict DER, R and S below the group order, S above half of it *)
 | PubKeyShape              (* key neither 33 bytes starting 02/03 nor 65 bytes starting 04 *)
 | VerifyFails              (* key and signature parse (go-bk), ECDSA says no *)
 | Unparsable.              (* key or signature does not parse (go-bk) *)
@@ -497,7 +728,8 @@ Proof.
   { intros b. apply kc_finish; [apply kc_ok; split; reflexivity|discriminate]. }
   assert (He : keeps_code s (finish_verify vf OErr)) by (apply kc_finish; [apply kc_err|discriminate]).
   assert (Hp : keeps_code s (finish_verify vf OPanic)) by (apply kc_finish; [apply kc_panic|discriminate]).
-  destruct (split_last full) as [[sg hb]|]; cbn [option_map]; [|apply Hg].
+  destruct (split_last full) as [[sg hb]|]; cbn [option_map];
+    [|destruct (negb _); cbn [option_map]; [exact He|apply Hg]].
   destruct (negb _); cbn [option_map]; [exact He|].
   destruct (check_sig_enc c sg); cbn [option_map]; [|exact He|exact Hp].
   destruct (negb _); cbn [option_map]; [exact He|].
@@ -629,10 +861,41 @@ Proof.
   destruct (orc_verify orc pk h sig (uses_der_parser c)) as [[|]|]; reflexivity.
 Qed.
 
-(** an empty signature is never an error: false is pushed *)
+(** an empty signature: the key encoding is still checked (STRICTENC), then false is pushed *)
 Theorem checksig_empty orc t i c s idx pk r :
-  ds s = pk :: [] :: r -> checksig_run orc t i c s idx false = Some (push_bool (set_ds s r) false).
-Proof. intros Hds. unfold checksig_run. rewrite Hds. reflexivity. Qed.
+  ds s = pk :: [] :: r ->
+  checksig_run orc t i c s idx false =
+  if check_pubkey_enc c pk then Some (push_bool (set_ds s r) false) else Some OErr.
+Proof. intros Hds. unfold checksig_run. rewrite Hds. cbn [split_last rev]. destruct (check_pubkey_enc c pk); reflexivity. Qed.
+
+(** a key or signature count longer than 4 bytes is an error, before and after genesis, with or without MINIMALDATA *)
+Theorem multisig_long_key_count orc t i c s idx vf nk d :
+  ds s = nk :: d -> (4 < length nk)%nat -> checkmultisig_run orc t i c s idx vf = Some OErr.
+Proof.
+  intros Hds Hl. unfold checkmultisig_run, pop_count, make_num. rewrite Hds.
+  replace (4 <? Z.of_nat (length nk))%Z with true by lia. reflexivity.
+Qed.
+
+Theorem multisig_long_sig_count orc t i c s idx vf nk pks ns d a :
+  ds s = nk :: pks ++ ns :: d -> pop_count c nk = Some a -> to_int32 a = Z.of_nat (length pks) ->
+  (4 < length ns)%nat -> checkmultisig_run orc t i c s idx vf = Some OErr.
+Proof.
+  intros Hds Ha Ha' Hl. unfold checkmultisig_run. rewrite Hds, Ha. cbv zeta. rewrite Ha'.
+  replace (Z.of_nat (length pks) <? 0)%Z with false by lia.
+  destruct (max_pubkeys c <? Z.of_nat (length pks))%Z; [reflexivity|].
+  destruct (max_ops c <? nops s + Z.of_nat (length pks))%Z; [reflexivity|].
+  rewrite (pop_n_app _ pks _ eq_refl). unfold pop_count, make_num.
+  replace (4 <? Z.of_nat (length ns))%Z with true by lia. reflexivity.
+Qed.
+
+(** the counts are read with the 4-byte limit whatever the era: [pop_count] does not look at it *)
+Theorem pop_count_spec c b :
+  pop_count c b = if (4 <? Z.of_nat (length b))%Z then None
+                  else if has_flag c F_MINIMALDATA && negb (is_minimal b) then None else Some (num_dec b).
+Proof.
+  unfold pop_count, make_num. destruct (4 <? Z.of_nat (length b))%Z; [reflexivity|].
+  destruct (has_flag c F_MINIMALDATA && negb (is_minimal b)); reflexivity.
+Qed.
 
 (** the loop at the level opcodeCheckMultiSig runs it: hard failures only from an element that fails an enabled check *)
 Theorem ms_loop_err orc t i c script pks sigs :
